@@ -269,6 +269,28 @@ def invalid_cells():
     for lo, hi in ((1.0, 0.0), (0.5, 0.4999), (10, -10)):
         add("StatThresholdAnomaliser", {"change_detector": {"cls": "PELT"}, "stat_lower": lo, "stat_upper": hi},
             "stat_lower above stat_upper")
+    # the same invalid value next to valid non-default settings of the *other* hyper-parameters (validation must not depend
+    # on which branch the companions select): penalty families / user callables, scorers, tuned thresholds
+    lenient = {"penalty": {"alpha": 1.0, "betas": [0.5, 0.5]}}
+    for s in (-1.0, -1e-9):
+        for pen in ("dense", "sparse", "intermediate", "combined", lenient):
+            add("MVCAPA", {"collective_penalty": pen, "collective_penalty_scale": s}, "negative collective penalty scale")
+            add("MVCAPA", {"point_penalty": pen, "point_penalty_scale": s}, "negative point penalty scale")
+            add("MVCAPA", {"collective_penalty": pen, "point_penalty": pen, "point_penalty_scale": s}, "negative point penalty scale")
+        for sav in ({"cls": "L2Cost", "param": 0.0}, {"cls": "Saving", "baseline_cost": {"cls": "GaussianVarCost", "param": {"tuple": [0.0, 1.0]}}}):
+            for det in ("CAPA", "MVCAPA"):
+                add(det, {"collective_saving": sav, "collective_penalty_scale": s}, "negative collective penalty scale")
+                add(det, {"point_saving": {"cls": "L2Cost", "param": 0.0}, "point_penalty_scale": s}, "negative point penalty scale")
+        for sc in ({"cls": "L2Cost"}, {"cls": "GaussianVarCost"}, {"cls": "L1Cost"}):
+            add("PELT", {"cost": sc, "penalty_scale": s}, "negative penalty scale")
+            add("MovingWindow", {"change_score": sc, "threshold_scale": s}, "negative threshold scale")
+            add("SeededBinarySegmentation", {"change_score": sc, "threshold_scale": s}, "negative threshold scale")
+            add("CircularBinarySegmentation", {"anomaly_score": sc, "threshold_scale": s}, "negative threshold scale")
+    for det in ("SeededBinarySegmentation", "CircularBinarySegmentation"):
+        add(det, {"threshold_scale": None, "growth_factor": 2.5}, "growth_factor outside (1, 2]")
+        add(det, {"threshold_scale": None, "level": 1.5}, "level outside (0, 1)")
+        add(det, {"threshold_scale": None, "min_segment_length": 0, "max_interval_length": 10}, "min_segment_length below 1")
+    add("MovingWindow", {"threshold_scale": None, "bandwidth": 0}, "bandwidth below 1")
     out = []
     for c in inv:
         for route in ("constructor", "set_params"):
@@ -385,7 +407,7 @@ def missing_cells(tier):
         for form in NA_FORMS:
             for pos in ("first", "middle", "last"):
                 for p in (1, 2):
-                    for where in ("fit", "predict"):
+                    for where in ("fit", "predict", "update", "transform", "fit_predict"):
                         if (det == "StatThresholdAnomaliser" or form == "series_nan") and p == 2:
                             continue
                         yield {"detector": det, "params": params, "form": form, "pos": pos, "p": p, "where": where}
@@ -441,10 +463,23 @@ def check_missing(case):
             det = K.build(K.detector_spec(det_name, case["params"]))
             if case["where"] == "fit":
                 det.fit(bad)
+            elif case["where"] == "fit_predict":
+                det.fit_predict(bad)
+            elif case["where"] == "update":
+                # the missing value arrives in a later chunk, in rows the detector has not seen before
+                import pandas as pd
+
+                first = pd.Series(np.asarray(clean)[:, 0]) if isinstance(bad, pd.Series) else pd.DataFrame(np.asarray(clean))
+                det.fit(first)  # the same kind of container as the chunk (mixing them is outside C11's domain)
+                stage = "update"
+                # (rows that repeat stored index labels would have their missing values filled from the stored rows by the
+                # pandas alignment in update - what that should mean is not stated; arrays always carry the labels 0..n-1)
+                chunk = (pd.DataFrame(bad) if isinstance(bad, np.ndarray) else bad).set_axis(pd.RangeIndex(n, 2 * n), axis=0)
+                det.update(chunk)
             else:
                 det.fit(clean)
-                stage = "predict"
-                det.predict(bad)
+                stage = case["where"]
+                getattr(det, case["where"])(bad)
     except ValueError:
         return {"nontrivial": True, "classes": [f"form={case['form']}", f"rejected_at_{stage}"]}
     raise Violation("data containing a missing value was accepted (ValueError expected)", detector=det_name,
@@ -464,7 +499,8 @@ FACETS = [
           exhaustive=True, timeout_is_violation=True, time_limit=12.0,
           rule=("every invalid hyper-parameter class named in the property (negative scales, min_segment_length below "
                 "its minimum, max below min, growth factor outside (1,2], level outside (0,1), bandwidth < 1, "
-                "stat_lower > stat_upper) through the constructor and through set_params, followed by fit/predict; "
+                "stat_lower > stat_upper) through the constructor and through set_params, followed by fit/predict - alone and next to valid non-default "
+                "companions (every penalty family and a user callable, other savings / scorers, tuned thresholds); "
                 "ValueError must be raised at some stage; every cell is non-trivial"),
           shards_quick=4, shards_thorough=4),
     Facet(name="numpy_scalar_hyperparameters", kind="enumerate", enumerate=numpy_scalar_cells, check=check_numpy_scalars,
@@ -477,6 +513,6 @@ FACETS = [
           timeout_is_violation=True, time_limit=12.0,
           rule=("seven detectors x eight forms of a missing value (NaN in float64 / float32 frames, arrays and Series, pd.NA in "
                 "nullable Int64 / Float64 / boolean columns, None in an object column) x position first/middle/last x p in {1,2} x "
-                "in the fit data or in the predict data: ValueError expected; every cell is non-trivial"),
+                "in the data given to fit, predict, transform, fit_predict, or to update as a chunk of new rows: ValueError expected; every cell is non-trivial"),
           shards_quick=8, shards_thorough=8),
 ]
